@@ -55,6 +55,9 @@ func main() {
 	faults := flag.Float64("faults", 0, "probability of an injected store failure per batch")
 	crash := flag.Float64("crash", 0, "probability of a crash per step")
 	hostile := flag.Bool("hostile", false, "use ids containing ':'")
+	routeerr := flag.Float64("routeerr", 0, "probability of an injected router failure")
+	converge := flag.Bool("converge", false, "after the clients stop, run the background coroutines for the bounded number of cycles and log the result (C11)")
+	tiny := flag.Bool("tiny", false, "kernel configuration at the bottom of the documented ranges (pool, queues, batches of 1..)")
 	flag.Parse()
 
 	if *dir == "" {
@@ -81,7 +84,7 @@ func main() {
 		one := func(lo, hi int) int { return lo + r.Intn(hi-lo+1) }
 		small := r.Intn(3) == 0 // every third run uses minimal kernel sizes
 		cfg := kcfg{
-			CoroutineMaxSize: 100, SubmissionBatchSize: one(1, 10), CompletionBatchSize: one(1, 10),
+			CoroutineMaxSize: 100, SubmissionBatchSize: one(1, 10), CompletionBatchSize: []int{1, 2, 3, 3, 5, 5, 8, 10}[r.Intn(8)],
 			PromiseBatchSize: one(1, 3), ScheduleBatchSize: one(1, 3), TaskBatchSize: one(1, 3),
 			TaskEnqueueDelay: int64(one(1, 4)), SignalTimeout: int64(one(0, 2)), ApiSize: 100,
 			Background: append([]string{}, allBackground...),
@@ -90,12 +93,18 @@ func main() {
 			cfg.SubmissionBatchSize, cfg.CompletionBatchSize = 100, 100
 			cfg.PromiseBatchSize, cfg.ScheduleBatchSize, cfg.TaskBatchSize = one(1, 100), one(1, 100), one(1, 100)
 		}
+		if *tiny {
+			cfg.CoroutineMaxSize = []int{1, 2, 3, 5, 8}[r.Intn(5)]
+			cfg.SubmissionBatchSize, cfg.CompletionBatchSize = one(1, 3), one(1, 3)
+			cfg.PromiseBatchSize, cfg.ScheduleBatchSize, cfg.TaskBatchSize = one(1, 2), one(1, 2), one(1, 2)
+			cfg.ApiSize = one(1, 5)
+		}
 		prof := profile{
 			Weights: weights(*focus), PFailPre: *faults / 2, PFailPost: *faults / 2, PCrash: *crash,
-			PRouteErr: 0, PSendOk: 0.6, PSendErr: 0.15, PDelay: []float64{0, 0.3, 0.6}[r.Intn(3)], MaxBatch: one(1, 3),
+			PRouteErr: *routeerr, PSendOk: 0.6, PSendErr: 0.15, PDelay: []float64{0, 0.3, 0.6}[r.Intn(3)], MaxBatch: one(1, 3),
 			Promises: one(2, 3), HostileIds: *hostile,
 		}
-		d := &driver{r: r, p: prof}
+		d := &driver{r: r, p: prof, converge: *converge}
 		for j := 0; j < prof.Promises; j++ {
 			id := fmt.Sprintf("p%d", j+1)
 			if *hostile && j > 0 {
